@@ -1154,7 +1154,7 @@ $BODY
 //@   before "arm_types.push" nth 2 <<<
                             proof { bs = bs.push(ops.ops@.len() as int); }
 //@   >>>
-//@   mutant constraint_end_before_start "if let Some(start) = rdef.start { Self::translate_expr(*start, ops, root); }" => "if let Some(start) = rdef.end.clone() { Self::translate_expr(*start, ops, root); }" expect constraint_arm
+//@   mutant constraint_end_before_start "if let Some(start) = rdef.start { Self::translate_expr(*start, ops, root); } else { ops.push(Op::Val(Primitive::Empty), rdef.pos.clone()); } if let Some(end) = rdef.end { Self::translate_expr(*end, ops, root); } else { ops.push(Op::Val(Primitive::Empty), rdef.pos); }" => "if let Some(end) = rdef.end { Self::translate_expr(*end, ops, root); } else { ops.push(Op::Val(Primitive::Empty), rdef.pos.clone()); } if let Some(start) = rdef.start { Self::translate_expr(*start, ops, root); } else { ops.push(Op::Val(Primitive::Empty), rdef.pos); }" expect constraint_arm
 //@   mutant constraint_open_start_dropped "ops.push(Op::Val(Primitive::Empty), rdef.pos.clone());" => "" expect constraint_arm
 //@   mutant constraint_range_as_exact "arm_types.push(ConstraintArmType::Range);" => "arm_types.push(ConstraintArmType::Exact);" expect constraint_arm
 //@   mutant constraint_shape_as_range "arm_types.push(ConstraintArmType::Exact);" => "arm_types.push(ConstraintArmType::Range);" expect constraint_arm
